@@ -29,6 +29,11 @@ pub struct Case {
 	pub real: bool,
 	pub blocks: Vec<RawBlock>,
 	pub perms: Vec<Perm>,
+	/// 0, or 51..=56: that many plain blocks (difficulty 20 each) come first, and the generated blocks that name an
+	/// ancestor of the head 1..5 back name the one 50 further back instead: branches that leave the best chain more
+	/// than 50 blocks below its tip (free difficulty, so that they can still carry more work)
+	#[serde(default)]
+	pub deep: u8,
 }
 
 fn perm_strategy() -> impl Strategy<Value = Perm> {
@@ -58,8 +63,9 @@ pub fn case_strategy(max_blocks: usize) -> impl Strategy<Value = Case> {
 		prop::bool::weighted(0.25),
 		prop::collection::vec(blk, 6..=max_blocks),
 		prop::collection::vec(perm_strategy(), 3..=4),
+		prop_oneof![8 => Just(0u8), 1 => 51u8..=56],
 	)
-		.prop_map(|(real, blocks, perms)| Case { real, blocks, perms })
+		.prop_map(|(real, blocks, perms, deep)| Case { real: real && deep == 0, blocks, perms, deep })
 }
 
 struct Tree {
@@ -75,7 +81,16 @@ fn build_tree(ctx: &Ctx, case: &Case) -> Result<Tree, Fail> {
 	let mut w = World::new(&cb.genesis, case.real);
 	let mode = if case.real { PowMode::Real } else { PowMode::Skip(1) };
 	let mut head = 0usize;
-	for (i, raw) in case.blocks.iter().enumerate() {
+	let prefix = (0..case.deep).map(|k| RawBlock { parent: 0, cb_key: k % 3, txs: vec![], dt: 60, diff: 20, neg: Neg::None, neg_pick: 0, hdr: 0, inp: 0 });
+	let shifted = case.blocks.iter().map(|b| {
+		let mut b = b.clone();
+		if case.deep > 0 && b.parent > 100 {
+			b.parent += 50;
+		}
+		b
+	});
+	let all: Vec<RawBlock> = prefix.chain(shifted).collect();
+	for (i, raw) in all.iter().enumerate() {
 		let built = w.build(cb.c(), raw, head).map_err(|e| Fail::new("builder", format!("block {}: {}", i, e)))?;
 		let model = match &built.verdict {
 			Ok(m) => m.clone(),
